@@ -2,7 +2,7 @@
 # usage: tools/run_all_seeds.sh [seed dirs…]   applies every seeded change in turn to /repo, runs the quick
 # check of the property it was written against, restores /repo; prints one line per seed.
 cd /verif || exit 2
-[ $# -eq 0 ] && set -- seeded/*/
+[ $# -eq 0 ] && set -- seeded/C*/
 for d in "$@"; do
   d=$(basename "$d"); id=${d%%-*}
   if ! git -C /repo diff --quiet; then echo "/repo is dirty"; exit 2; fi
